@@ -170,9 +170,17 @@ static void registry_vs_ledger(const char* when) {
   }
 }
 
+/* in a third of the cases the probe destructors allocate: one object that is dropped and one that is deleted by
+   hand at once -- insertions (growth) and removals in the registry while a sweep is finalising its list */
+static int destructors_allocate;
 static void on_destruct(var obj, int64_t id) {
   (void)id;
   rs_dead(obj);
+  if (destructors_allocate && in_collection && gc->running) {
+    var kept = new(Int, $I(id)); rs_add(kept, 0, 0); kept = NULL;
+    var temp = new(Int, $I(-id)); rs_add(temp, 0, 0); rs_dead(temp); del(temp);
+    vh_count("allocations_made_by_destructors_during_a_sweep");
+  }
   if (check_c17 && in_collection) {
     /* removals while a sweep is in progress: the registry must be consistent right now */
     wb_in_sweep_walks++;
@@ -857,6 +865,7 @@ static void __attribute__((noinline)) run_random_case(vh_rng* r, int nops, int h
   reset_world(roots);
   rs_reset();
   use_paddr = vh_chance(r, 35);
+  destructors_allocate = vh_chance(r, 33);
   pa_offset_mode = (int)vh_below(r, 2);
   vh_op("heap ops=%d paddr=%d(mode %d) bias=%d", nops, use_paddr, pa_offset_mode, heavy_kind);
   for (int op = 0; op < nops; op++) {
